@@ -509,6 +509,20 @@ def main(argv=None):
     ap.add_argument('--replay', default=None)
     args = ap.parse_args(argv)
     seed = int(os.environ.get('VERIF_SEED', '0') or 0)
+    if args.prop == 'tables':
+        # regenerate every claimed property's tables from the current source tree (used by setup.sh and after seeded runs)
+        ids = (Path(__file__).resolve().parent.parent / 'tools' / 'claimed.txt').read_text().split()
+        bad = 0
+        for pid in ids:
+            try:
+                prop = importlib.import_module(f'harness.props.{pid.lower()}').PROP
+                changed = [p for p, c in prop.tables().items() if write_if_changed(LEAN / p, c)]
+                if changed:
+                    print(f'[{pid}] regenerated tables: {changed}', flush=True)
+            except Exception:
+                traceback.print_exc()
+                bad += 1
+        sys.exit(2 if bad else 0)
     try:
         mod = importlib.import_module(f'harness.props.{args.prop.lower()}')
         prop = mod.PROP
